@@ -644,3 +644,146 @@ Proof.
     intros s o C. unfold out_covered in C. unfold out_len. lia.
   - rewrite <- map_app. now apply Permutation_map.
 Qed.
+
+(* ------------------------------------------------------------------ Part F: corollaries *)
+(* the arithmetic size function is the size of the signed transaction *)
+Lemma actual_size_formula ins outs T :
+  build ins outs = Some T ->
+  let z := L_sizes (map real_trip ins) (map out_len outs) in
+  base_size T = z_base z /\ total_size T = z_total z /\ vsize T = z_vsize z.
+Proof.
+  intros Hb. destruct (build_with_spec _ _ _ _ Hb) as (l & -> & Fl).
+  assert (H32 : Forall hash32 l).
+  { clear -Fl. induction Fl; constructor; auto. now destruct (sign_input_spec _ _ H) as (_ & ? & _). }
+  assert (E : map in_trip l = map real_trip ins).
+  { clear -Fl. induction Fl; cbn [map]; [reflexivity|]. f_equal; auto.
+    now destruct (sign_input_spec _ _ H) as (? & _). }
+  cbv zeta. rewrite <- E. rewrite sizes_base, sizes_total, vsize_mk by assumption. repeat split.
+Qed.
+
+Lemma signature_length i : sig_in_range i = true -> 9 <= len (sig_bytes_with der_serialize i) <= 72.
+Proof. exact (sl_bounds i). Qed.
+
+(* monotonicity of the estimate in the shape *)
+Definition ishape_le (a b : ishape) : Prop :=
+  match a, b with
+  | SPkh w, SPkh w' => w = w'
+  | SSh w l, SSh w' l' => w = w' /\ l <= l'
+  | _, _ => False
+  end.
+Lemma zeros_push_len_mono a b : a <= b -> zeros_push_len a <= zeros_push_len b.
+Proof.
+  intros H. unfold zeros_push_len. pose proof (push_len_mono a b H). pose proof (push_len_ge b).
+  destruct (a =? 1) eqn:?; destruct (b =? 1) eqn:?; try lia.
+  assert (a = 0) by lia. subst. cbn in *. lia.
+Qed.
+Lemma ishape_le_trip a b : ishape_le a b -> trip_le (ish_trip a) (ish_trip b).
+Proof.
+  destruct a as [w|w l], b as [w'|w' l']; cbn [ishape_le]; try contradiction.
+  - intros <-. unfold trip_le. repeat split; auto; lia.
+  - intros (<- & H). unfold trip_le, ish_trip, t_base, t_wit, t_hw. cbn [fst snd].
+    destruct w; cbn [ish_base ish_witsz ish_wit].
+    + pose proof (var_len_mono l l' H). repeat split; auto; lia.
+    + pose proof (zeros_push_len_mono l l' H).
+      assert (var_len (push_len 72 + push_len 33 + zeros_push_len l)
+              <= var_len (push_len 72 + push_len 33 + zeros_push_len l')) by (apply var_len_mono; lia).
+      repeat split; auto; lia.
+Qed.
+Theorem estimate_monotone ops1 ops2 e1 e2 :
+  estimate ops1 = VOk e1 -> estimate ops2 = VOk e2 ->
+  (exists ss rest, Permutation (ss ++ rest) (shape_ins ops2) /\ Forall2 ishape_le (shape_ins ops1) ss) ->
+  (exists rest, Permutation (shape_outs ops1 ++ rest) (shape_outs ops2)) ->
+  e1 <= e2.
+Proof.
+  intros H1 H2 (ss & rest & P & F) (resto & Po).
+  apply estimate_shapes in H1. apply estimate_shapes in H2. subst. unfold z_vsize, shape_sizes.
+  apply vsize_of_weight_mono.
+  apply (dominated_weight _ _ (map ish_trip ss) (map ish_trip rest) _
+                          (map oshape_len (shape_outs ops1)) (map oshape_len resto)).
+  - apply Forall2_map_l, Forall2_map_r. eapply Forall2_imp; [|exact F]. apply ishape_le_trip.
+  - rewrite <- map_app. now apply Permutation_map.
+  - clear. induction (map oshape_len (shape_outs ops1)); constructor; auto. apply N.le_refl.
+  - rewrite <- map_app. now apply Permutation_map.
+Qed.
+Lemma ishape_le_refl l : Forall2 ishape_le l l.
+Proof. induction l as [|[w|w n] l]; constructor; auto; cbn; auto. split; [reflexivity|apply N.le_refl]. Qed.
+(* adding calls never lowers the estimate; the order of the calls is irrelevant *)
+Corollary estimate_monotone_append ops more e1 e2 :
+  estimate ops = VOk e1 -> estimate (ops ++ more) = VOk e2 -> e1 <= e2.
+Proof.
+  intros H1 H2. apply (estimate_monotone ops (ops ++ more) e1 e2 H1 H2).
+  - exists (shape_ins ops), (shape_ins more). split; [|apply ishape_le_refl].
+    unfold shape_ins. now rewrite flat_map_app.
+  - exists (shape_outs more). unfold shape_outs. now rewrite flat_map_app.
+Qed.
+Corollary estimate_order_irrelevant ops1 ops2 e1 e2 :
+  estimate ops1 = VOk e1 -> estimate ops2 = VOk e2 -> Permutation ops1 ops2 -> e1 = e2.
+Proof.
+  intros H1 H2 P.
+  assert (Pi : Permutation (shape_ins ops1) (shape_ins ops2)) by (apply Permutation_flat_map; assumption).
+  assert (Po : Permutation (shape_outs ops1) (shape_outs ops2)) by (apply Permutation_flat_map; assumption).
+  apply N.le_antisymm.
+  - apply (estimate_monotone ops1 ops2 e1 e2 H1 H2).
+    + exists (shape_ins ops1), []. rewrite app_nil_r. split; [assumption|apply ishape_le_refl].
+    + exists []. now rewrite app_nil_r.
+  - apply (estimate_monotone ops2 ops1 e2 e1 H2 H1).
+    + exists (shape_ins ops2), []. rewrite app_nil_r. split; [now apply Permutation_sym|apply ishape_le_refl].
+    + exists []. rewrite app_nil_r. now apply Permutation_sym.
+Qed.
+
+(* ---- concrete witnesses ---- *)
+Definition r33 : Z := (2 ^ 255 + 12345)%Z.              (* needs the 0x00 pad: 33 bytes *)
+Definition s_low32 : Z := Z.of_N half_order.            (* largest low S: 32 bytes *)
+Definition s_high : Z := (Z.of_N secp_n - 1)%Z.         (* a high S: 33 bytes when not normalised *)
+Definition s_high32 : Z := (Z.of_N half_order + 1)%Z.   (* the high S that normalises to [s_low32] *)
+Definition mk_rin (k : ikind) (r s : Z) : rin :=
+  {| ri_hash := 7; ri_index := 1; ri_kind := k; ri_r := r; ri_s := s;
+     ri_pk := {| pk_x := 5; pk_y_odd := true |}; ri_curve_ok := true |}.
+Definition redeem126 : list N := repeat 97 126.
+Definition out_of (n : nat) : txout := {| to_value := 1000; to_script := repeat 97 n |}.
+
+(* equality is reached: all four input kinds, all four output kinds, maximal signatures (also
+   from a high S, which the serialiser normalises) *)
+Example estimate_tight :
+  let ops := [OPkhIn 1 true; OPkhIn 1 false; OShIn 1 126 true; OShIn 1 126 false;
+              OPkhOut 1 true; OPkhOut 1 false; OShOut 1 true; OShOut 1 false] in
+  let ins := [mk_rin (KSh false redeem126) r33 s_high32; mk_rin (KPkh true) r33 s_low32;
+              mk_rin (KSh true redeem126) r33 s_low32; mk_rin (KPkh false) r33 s_high32] in
+  let outs := [out_of 22; out_of 25; out_of 34; out_of 23] in
+  exists T e, build ins outs = Some T /\ estimate ops = VOk e /\ vsize T = e
+              /\ map (fun i => len (sig_bytes_with der_serialize i)) ins = [72; 72; 72; 72].
+Proof. cbv zeta. eexists. eexists. repeat split; vm_compute; reflexivity. Qed.
+
+(* why the low-S step matters: with the serialiser that skips it ([der_raw]) a 73-byte
+   signature appears and the real transaction of exactly the estimated shape is larger *)
+Example high_s_would_undershoot :
+  let ops := [OPkhIn 1 false; OPkhOut 1 true] in
+  let ins := [mk_rin (KPkh false) r33 s_high] in
+  let outs := [out_of 22] in
+  exists T e, build_with der_raw ins outs = Some T /\ estimate ops = VOk e /\ e < vsize T
+              /\ map (fun i => len (sig_bytes_with der_raw i)) ins = [73]
+              /\ in_covered (SPkh false) (KPkh false) = true /\ out_covered (TPkh true) (out_of 22) = true.
+Proof. cbv zeta. eexists. eexists. repeat split; vm_compute; reflexivity. Qed.
+
+(* why the guard of [in_covered] on one-byte redeem scripts: the placeholder 0x00 is pushed as
+   OP_0 (1 byte), the real script 0x51 as 0x01 0x51 (2 bytes) *)
+Example one_byte_redeem_undershoots :
+  let ops := [OShIn 1 1 false; OPkhOut 1 true] in
+  let ins := [mk_rin (KSh false [81]) r33 s_low32] in
+  let outs := [out_of 22] in
+  exists T e, build ins outs = Some T /\ estimate ops = VOk e /\ vsize T = e + 1.
+Proof. cbv zeta. eexists. eexists. repeat split; vm_compute; reflexivity. Qed.
+
+(* callers: a deposit sweep of P2WSH deposits is covered by what estimateDepositsSweepFee
+   announces; one of P2SH deposits is not, and is larger than the estimate *)
+Example sweep_p2sh_deposits_exceed_estimate :
+  let ins := [mk_rin (KPkh true) r33 s_low32; mk_rin (KSh false redeem126) r33 s_low32;
+              mk_rin (KSh false redeem126) r33 s_low32] in
+  exists T e, build ins [out_of 22] = Some T /\ estimate (sweep_ops 2) = VOk e /\ e + 300 < vsize T.
+Proof. cbv zeta. eexists. eexists. repeat split; vm_compute; reflexivity. Qed.
+
+(* ---- the executable spec ---- *)
+Lemma spec_ok_sound c e r :
+  spec_ok c = true -> covered c = true -> c_est c = VOk e -> c_real c = Some r ->
+  r_vsize r <= e /\ vsize_of_weight (r_base r * 3 + r_total r) <= e.
+Proof. unfold spec_ok. intros H C E R. rewrite E, R, C in H. lia. Qed.
